@@ -120,7 +120,7 @@ def run(tier):
     else:
         tours = [("2", 2, "P2", (1, 1)), ("2t", 2, "P2t", (1, 1)), ("3t", 3, "P3t", (1, 1)), ("3", 3, "P3", (1, 1))]
         configs = [("3b", 3, "P3b", (1, 0)), ("4", 4, "P4", (1, 0)), ("4t", 4, "P4t", (1, 0)),
-                   ("3c", 3, "P3c", (1, 1), 150), ("4b", 4, "P4b", (1, 0), 150)]
+                   ("3c", 3, "P3c", (1, 1), 100), ("4b", 4, "P4b", (1, 0), 100)]
         configs_if_differs = [("2", 2, "P2", (1, 1)), ("3", 3, "P3", (1, 1))]
         specs = [
             ("dfs2", {"progs": PROGS["P2"], "preempt": 4, "max_runs": 6000, "spur": 1, "eintr": 1, "graph": "2"}),
